@@ -120,25 +120,30 @@ func init() {
 	}
 	// --- sync/atomic primitives
 	atomicLoad := func(ex *Exec, fn *ssa.Function, args []Value) Value {
+		ex.atomicSync(ex.derefArg(args[0], fn))
 		return ex.derefArg(args[0], fn).V
 	}
 	atomicStore := func(ex *Exec, fn *ssa.Function, args []Value) Value {
+		ex.atomicSync(ex.derefArg(args[0], fn))
 		ex.derefArg(args[0], fn).V = args[1]
 		return nil
 	}
 	atomicAdd := func(ex *Exec, fn *ssa.Function, args []Value) Value {
 		l := ex.derefArg(args[0], fn)
+		ex.atomicSync(l)
 		l.V = BVBin("bvadd", l.V.(*Term), args[1].(*Term))
 		return l.V
 	}
 	atomicSwap := func(ex *Exec, fn *ssa.Function, args []Value) Value {
 		l := ex.derefArg(args[0], fn)
+		ex.atomicSync(l)
 		old := l.V
 		l.V = args[1]
 		return old
 	}
 	atomicCAS := func(ex *Exec, fn *ssa.Function, args []Value) Value {
 		l := ex.derefArg(args[0], fn)
+		ex.atomicSync(l)
 		eq := ex.valuesEqual(l.V, args[1])
 		if ex.branch(eq, "cas") {
 			l.V = args[2]
@@ -176,11 +181,23 @@ func init() {
 		ex.syncPoint(&syncOp{kind: opWgWait, wg: ex.wgOf(p.L)})
 		return nil
 	}
-	// --- sync.Mutex / RWMutex: sequential harnesses only (no blocking semantics needed)
-	for _, n := range []string{"(*sync.Mutex).Lock", "(*sync.Mutex).Unlock", "(*sync.RWMutex).Lock", "(*sync.RWMutex).Unlock",
-		"(*sync.RWMutex).RLock", "(*sync.RWMutex).RUnlock"} {
-		intrinsics[n] = func(ex *Exec, fn *ssa.Function, args []Value) Value { return nil }
+	// --- sync.Mutex / RWMutex: blocking semantics in the scheduler (a scheduling point per operation)
+	mutexOp := func(kind opKind) intrinsic {
+		return func(ex *Exec, fn *ssa.Function, args []Value) Value {
+			p, ok := args[0].(Pointer)
+			if !ok || p.L == nil {
+				ex.unsupported("%s on nil mutex", fn.Name())
+			}
+			ex.syncPoint(&syncOp{kind: kind, mu: ex.mutexOf(p.L)})
+			return nil
+		}
 	}
+	intrinsics["(*sync.Mutex).Lock"] = mutexOp(opLock)
+	intrinsics["(*sync.Mutex).Unlock"] = mutexOp(opUnlock)
+	intrinsics["(*sync.RWMutex).Lock"] = mutexOp(opLock)
+	intrinsics["(*sync.RWMutex).Unlock"] = mutexOp(opUnlock)
+	intrinsics["(*sync.RWMutex).RLock"] = mutexOp(opRLock)
+	intrinsics["(*sync.RWMutex).RUnlock"] = mutexOp(opRUnlock)
 	// --- time
 	intrinsics["time.Now"] = func(ex *Exec, fn *ssa.Function, args []Value) Value {
 		return zero(fn.Signature.Results().At(0).Type())
